@@ -36,33 +36,34 @@ type Exec struct {
 	h       *HarnessRun
 	globals map[*ssa.Global]*Object
 
-	prefix []Dec
-	pos    int
-	decs   []Dec
-	pc     []*Term
-	model  Model // satisfies pc, or nil
-	facts  *factStore
+	prefix    []Dec
+	pos       int
+	decs      []Dec
+	pc        []*Term
+	model     Model // satisfies pc, or nil
+	facts     *factStore
+	usedFresh bool
 
 	inputs    []*Term
 	inputSeen map[string]int
 	observed  []string
 
-	steps      int
-	stepBudget int
-	depth      int
-	objN       int
-	allocBytes int64
-	allocLimit int64 // 0 = none
-	maxAlloc   int64
-	known      string
-	initMode   bool
-	arith      bool
-	realN      int
-	floatOps   int
+	steps        int
+	stepBudget   int
+	depth        int
+	objN         int
+	allocBytes   int64
+	allocLimit   int64 // 0 = none
+	maxAlloc     int64
+	known        string
+	initMode     bool
+	arith        bool
+	realN        int
+	floatOps     int
 	floatRange   []*Term
 	floatNonZero []*Term
-	reached    map[string]bool
-	onceDone   map[string]bool
+	reached      map[string]bool
+	onceDone     map[string]bool
 	nopanicDepth int
 }
 
@@ -80,11 +81,21 @@ func (e *Exec) check(extra *Term) Result {
 	e.w.solver.Declare(e.inputs)
 	r := e.w.solver.Check(conds)
 	e.w.stats.FeasQueries++
+	e.usedFresh = false
+	if r == Unknown && e.w.fresh != nil {
+		e.w.fresh.Declare(e.inputs)
+		r = e.w.fresh.Check(conds)
+		e.usedFresh = true
+	}
 	return r
 }
 
 func (e *Exec) fetchModel() Model {
-	m, err := e.w.solver.Values(e.bvInputs())
+	s := e.w.solver
+	if e.usedFresh {
+		s = e.w.fresh
+	}
+	m, err := s.Values(e.bvInputs())
 	if err != nil {
 		return nil
 	}
